@@ -239,13 +239,15 @@ def translator_max(repo, d):
 # ----------------------------------------------------------------------------- contents of grown memory (C05 + C18)
 
 def content_cases(rng, tier):
+    # (initial pages, max, reallocFails: 0 never / 1 always / k>=2: the (k-1)-th realloc call fails, deltas)
     cases = [(1, 10, 0, [2, 0, 1, 20, 3]), (0, 4, 0, [1, 1, 2, 1]), (2, 2, 0, [1, 0]), (1, 6, 0, [5, 1]),
-             (1, 10, 1, [2, 1]), (3, 8, 0, [4294967295, 1, 4294967293, 4]), (0, 3, 0, [3]), (1, 3, 0, [1, 1, 1])]
+             (1, 10, 1, [2, 1]), (3, 8, 0, [4294967295, 1, 4294967293, 4]), (0, 3, 0, [3]), (1, 3, 0, [1, 1, 1]),
+             (1, 10, 2, [2, 1, 1]), (1, 10, 3, [2, 1, 1]), (2, 6, 4, [1, 0, 1, 1, 1]), (1, 4, 2, [1]), (1, 4, 1, [1, 0, 3])]
     for _ in range(12 if tier == "quick" else 300):
         init = rng.choice([0, 1, 1, 2, 3])
         maxp = init + rng.choice([0, 1, 3, 6])
         ds = [rng.choice([0, 1, 1, 2, 3, 5, 4294967295]) for _ in range(rng.randrange(1, 5))]
-        cases.append((init, maxp, 1 if rng.random() < 0.1 else 0, ds))
+        cases.append((init, maxp, rng.choice([0, 0, 0, 0, 1, 2, 3]), ds))
     return cases
 
 
@@ -281,20 +283,52 @@ def run_grow_content(chk, repo, d, tier, broken, exe=None):
         chk.count_case(("content", init, maxp, fail, tuple(ds)), True,
                        {"case": f"content {init} {maxp} {fail} {' '.join(map(str, ds))}", "real": out,
                         "model": model[idx] if model else None} if idx < 3 else None)
+        hist_args = ["content", init, maxp, fail] + ds
         if rc != 0:
-            broken.append({"kind": "harness", "msg": f"content {init} {maxp} {fail} {ds}: exit {rc} {err[-200:]}"})
+            # the real code crashed / hung while the contents were read back through the real accessors: an answer
+            ents = out.split()
+            last = ents[-1] if ents else ""
+            n_done = len(ents)
+            failed_grow = last.startswith("r=4294967295")
+            if isinstance(rc, int) and rc < 0 or rc in (139, 134, 138) or rc == "timeout":
+                chk.violation(
+                    "failed-grow-loses-memory" if failed_grow else "grow-content-crash",
+                    f"non-shared memory ({init} page(s), max {maxp}, pattern written through i32.store8), grows {ds[:n_done]} "
+                    f"(realloc made to fail: mode {fail}): after grow #{n_done} (`{last}`"
+                    + (": returned -1, page count unchanged, but `memory->data` is no longer the old block" if "d=0" in last else "")
+                    + f") reading the old contents back through i32.load8_u crashes (exit {rc}) — a failed memory.grow must change nothing",
+                    {"harness": "tools/harness/grow_sched.c (realloc redirected: fails on request, old block stays valid)",
+                     "kind": "grow-content", "args": hist_args, "history": {"initial_pages": init, "writes": "pattern over all pages (i32.store8)",
+                                                    "grows": ds[:n_done], "realloc_failure_mode": fail,
+                                                    "reads": "all old bytes (i32.load8_u)"},
+                     "observed": out, "exit": rc, "model": "Props/C05Grow.lean grow_realloc_failure_keeps_contents",
+                     "replay_cmd": "python3 tools/check.py C18 --replay <this file>"}, True)
+            else:
+                broken.append({"kind": "harness", "msg": f"content {init} {maxp} {fail} {ds}: exit {rc} {err[-200:]}"})
             continue
         if model and model[idx] != out:
             broken.append({"kind": "correspondence",
                            "msg": f"grow-content {init} {maxp} {fail} {ds}: real `{out}` model `{model[idx]}`"})
         pages = init
+        calls = 0
         for dl, ent in zip(ds, out.split()):
             f = dict(kv.split("=") for kv in ent.split(","))
+            if f.get("d") == "0" or (int(f["r"]) == FAIL and (int(f["p"]) != pages or f["o"] != "1")):
+                chk.violation(
+                    "failed-grow-loses-memory",
+                    f"non-shared memory ({init} page(s), max {maxp}), grows {ds} (realloc failure mode {fail}): memory.grow({dl}) "
+                    f"at {pages} page(s) returned -1 but changed the memory (`{ent}`: d = data pointer unchanged, p = pages, "
+                    "o = old bytes intact) — a failed grow must change nothing",
+                    {"kind": "grow-content", "harness": "tools/harness/grow_sched.c", "args": hist_args, "observed": out,
+                     "model": "Props/C05Grow.lean grow_realloc_failure_keeps_contents",
+                     "replay_cmd": "python3 tools/check.py C18 --replay <this file>"}, True)
             hist["grows"] += 1
             er, p2 = spec_grow(pages, dl, maxp)
-            if fail and er != FAIL and dl > 0:
-                er, p2 = FAIL, pages
-                hist["realloc_failures"] += 1
+            if er != FAIL and dl > 0:
+                calls += 1
+                if fail == 1 or (fail >= 2 and calls == fail - 1):
+                    er, p2 = FAIL, pages
+                    hist["realloc_failures"] += 1
             if int(f["r"]) != FAIL and dl > 0:
                 hist["successful_grows"] += 1
                 hist["new_bytes_checked"] += (int(f["p"]) - pages) * 65536
@@ -303,7 +337,7 @@ def run_grow_content(chk, repo, d, tier, broken, exe=None):
             if f["o"] != "1":
                 chk.violation("grow-old-contents-changed",
                               f"memory.grow({dl}) on a non-shared memory of {pages} pages changed bytes below the old size",
-                              {"harness": "tools/harness/grow_sched.c", "args": ["content", init, maxp, fail] + ds,
+                              {"kind": "grow-content", "harness": "tools/harness/grow_sched.c", "args": ["content", init, maxp, fail] + ds,
                                "observed": out, "replay_cmd": "python3 tools/check.py C18 --replay <this file>"}, True)
             if int(f["r"]) != er or int(f["p"]) != p2:
                 broken.append({"kind": "correspondence", "msg": f"grow-content {init} {maxp} {fail} {ds}: grow({dl}) at {pages} "
@@ -317,7 +351,7 @@ def run_grow_content(chk, repo, d, tier, broken, exe=None):
             f"zero (first at byte {f['f']}) when realloc returns a block with a dirty tail — the specification requires grown "
             "memory to read as zero; wasmMemoryGrow's memset after realloc does not cover [oldSize, newSize)",
             {"harness": "tools/harness/grow_sched.c (realloc redirected to dirty_realloc: fresh block, tail 0xAA)",
-             "args": ["content", init, maxp, fail] + ds, "initial_pages": init, "failing_delta": dl, "observed": out,
+             "kind": "grow-content", "args": ["content", init, maxp, fail] + ds, "initial_pages": init, "failing_delta": dl, "observed": out,
              "model": "Props/C05Grow.lean grow_zeroes_new_pages (Gen.growSteps: realloc size / memset offset+length)",
              "replay_cmd": "python3 tools/check.py C18 --replay <this file>"}, True)
     chk.coverage.update({"content_" + k: v for k, v in hist.items()})
@@ -924,8 +958,14 @@ def replay(path):
             return 0
         if args[0] == "content":
             bad = False
+            if rc != 0:
+                print(f"the real code crashed (exit {rc}) while the old contents were read back after `{(out.split() or ['?'])[-1]}`")
+                return 1
             for ent in out.split():
                 f = dict(kv.split("=") for kv in ent.split(","))
+                if f.get("d") == "0":
+                    print(f"  {ent}: a failed grow replaced memory->data")
+                    bad = True
                 if int(f["z"]) != 0 or f["o"] != "1":
                     print(f"  {ent}: {f['z']} non-zero bytes in the new pages (first at {f['f']}), old bytes intact: {f['o']}")
                     bad = True
